@@ -214,7 +214,7 @@ def obligations(tier):
             covers += ["truth-tie", "truth-decides"]
         if arb == "priority":
             covers += ["all-importance-zero"]
-        out.append(Ob(name, h, dict(arb=arb, n=n, tkinds=tk), budget=300 if quick else 900, covers=covers, max_fail_keys=1,
+        out.append(Ob(name, h, dict(arb=arb, n=n, tkinds=tk), hang_s=240, budget=300 if quick else 900, covers=covers, max_fail_keys=1,
                       bounds=dict(inputs=n, importance=[0, IMAX], value=[-2, 2], truth_kinds_per_input=tk,
                                   quarter_truth="k/4, k in [-2,6]", int_truth=[-1, 2], default_truth="k/4, k in [0,4]")))
 
